@@ -141,7 +141,7 @@ def r1_r2(ck, F):
             for c in p.calls:
                 path = c[1].get("path", "")
                 args = [show(a) for a in c[2]] if len(c) > 2 else []
-                if c[1].get("method") == "lock" and "Mutex" in path and args and "::modify::" in args[0] and not args[0].startswith("arg"):
+                if c[1].get("method") == "lock" and "Mutex" in path and args and __import__("re").match(r"^[A-Za-z_][\w:<>{}#, ]*::[A-Z_0-9]+$", args[0]):    # a static
                     held = "lock(%s" % args[0][:40]
                 elif path == "<drop>" and "MutexGuard" in str(c[1].get("drop_ty")):
                     held = None
